@@ -45,6 +45,16 @@ func runC02(c *core.Ctx) {
 		return o.Rule == "C20-SHAPE" || o.Rule == "C20-COUNT" || o.Rule == "C20-TERMINAL" || o.Rule == "C20-WHO"
 	})
 	importRules(c, "C16", "C02-OPTS", func(o core.Obligation) bool { return o.Rule != "C16-ADD" && o.Rule != "C16-ACCESSOR" })
+	// "decoding a conformant image yields exactly the field values that image carries": binary slots must be read raw,
+	// text slots with the trimming primitive (the C01 kind rule, judged against the specification tables)
+	c.MinInstances("C02-KIND", 40)
+	importRulesFn(c, "C01", "C02-KIND", func(sub *core.Ctx) {
+		for _, p := range loadPDUs(sub).list {
+			if p.Enc != nil && p.Dec != nil {
+				kindRule(sub, p, p.Enc.Flat(), p.Dec.Flat())
+			}
+		}
+	}, nil)
 	c.Trust("E2 spec tables (hand transcription of SMPP 3.4, CMPP 2.0/3.0, SGIP 1.2, SMGP 3.0.3; DESIGN.md Appendix A)", "go/types constant evaluation")
 	c.NotDecided("octet-for-octet equality on concrete values", "C-string maximum lengths (the encoder does not enforce them; not part of the layout)")
 	for _, p := range ps.list {
